@@ -452,6 +452,11 @@ class SigmaRuleBase:
         """Check if rule is referenced by another rule."""
         return rule in self._backreferences
 
+    def reset_conversion_result(self: Self) -> None:
+        """Discard result and state of a previous conversion."""
+        self._conversion_result = None
+        self._conversion_states = None
+
     def set_conversion_result(self: Self, result: list[Any]) -> None:
         """Set conversion result."""
         self._conversion_result = result
